@@ -72,10 +72,42 @@ theorem specGrammar_of_specOK {T : Name} {s : VSpec} (h : specOK T s = true) : s
   intro ⟨h1, h2, h3⟩
   simp [specOK, h1, h2, h3] at h
 
-/-- under the syntactic grammar the loop of makeStr finds exactly the declared constants -/
-theorem collect_of_grammarOK {i : Input} (h : grammarOK i = true) : collect i.T i.blocks = i.decl := by
+/-- a block made of specs without a type but with a value (what the template's `const _t_max = …` is)
+    yields nothing, whatever is remembered on entry -/
+theorem collectBlock_template (T : Name) (specs : List VSpec) (h : ∀ s ∈ specs, templateConst s = true) :
+    ∀ typ : Option Name, collectBlock T typ specs = [] := by
+  induction specs with
+  | nil => intro _; rfl
+  | cons s rest ih =>
+    intro typ
+    have hs := h s (by simp)
+    unfold templateConst at hs
+    unfold collectBlock
+    rw [if_pos hs]
+    exact ih (fun s' hs' => h s' (by simp [hs'])) none
+
+/-- constants of generated files are not collected -/
+theorem collect_generated (T : Name) (blocks gen : List (List VSpec))
+    (h : ∀ b ∈ gen, ∀ s ∈ b, templateConst s = true) : collect T (blocks ++ gen) = collect T blocks := by
+  have hg : collect T gen = [] := by
+    unfold collect
+    induction gen with
+    | nil => rfl
+    | cons b rest ih =>
+      simp only [List.flatMap_cons]
+      rw [collectBlock_template T b (h b (by simp)) none, ih (fun b' hb' => h b' (by simp [hb']))]
+      rfl
+  have : collect T (blocks ++ gen) = collect T blocks ++ collect T gen := by
+    unfold collect; rw [List.flatMap_append]
+  rw [this, hg, List.append_nil]
+
+/-- under the syntactic grammar the loop of makeStr — over the hand-written const declarations and
+    those of generated files left in the package — finds exactly the declared constants -/
+theorem collect_of_grammarOK {i : Input} (h : grammarOK i = true) : collect i.T i.scanned = i.decl := by
   simp only [grammarOK, Bool.and_eq_true, List.all_eq_true, Bool.not_eq_true'] at h
-  obtain ⟨⟨⟨⟨_, hq⟩, _⟩, _⟩, hb⟩ := h
+  obtain ⟨⟨⟨⟨⟨_, hq⟩, _⟩, _⟩, hb⟩, hgen⟩ := h
+  unfold Input.scanned
+  rw [collect_generated i.T i.blocks i.generated hgen]
   exact collect_eq_declared i.T hq i.blocks (fun b hbm s hs => specGrammar_of_specOK (hb b hbm s hs))
 
 theorem bits_of_basicOK {i : Input} (h : basicOK i = true) : 0 < i.kind.bits ∧ i.kind.bits ≤ 64 := by
@@ -267,7 +299,7 @@ theorem find?_some_iff_mem {β : Type} [DecidableEq β] (f : Const → β) (l : 
 /-! ## what WF gives -/
 
 structure WFfacts (i : Input) : Prop where
-  collectEq : collect i.T i.blocks = i.decl
+  collectEq : collect i.T i.scanned = i.decl
   bits : 0 < i.kind.bits
   bits64 : i.kind.bits ≤ 64
   nonempty : i.decl ≠ []
@@ -287,7 +319,7 @@ theorem WF.facts {i : Input} (h : WF i = true) : WFfacts i := by
   simp [he] at this
 
 /-- the table the emitted file holds, for any input -/
-def tables (i : Input) : List Const := sortC i.kind (collect i.T i.blocks)
+def tables (i : Input) : List Const := sortC i.kind (collect i.T i.scanned)
 
 theorem tables_eq {i : Input} (h : WF i = true) : tables i = specSorted i.decl := by
   have f := WF.facts h
